@@ -107,3 +107,10 @@ Theorem C17_stats_per_base : forall len s e vals, wf_vals len vals -> s <= e -> 
   (fl_Q (sum_of exact (clip_filter s e vals)) == sum_over (base_val vals) (region_bases s e))%Q.
 Proof. exact stats_per_base. Qed.
 Print Assumptions C17_stats_per_base.
+
+(* valuesoverbed: one row per line of the BED file, in line order *)
+Theorem C17_values_rows_in_order : forall q withnames bed rows,
+  values_over_bed q withnames bed = Ok rows <->
+  Forall2 (fun l r => vob_line q withnames (unique_names withnames bed) l = Ok r) (file_lines bed) rows.
+Proof. exact values_rows_in_order. Qed.
+Print Assumptions C17_values_rows_in_order.
